@@ -65,9 +65,10 @@ for _f in ADAPTIVE:
 #   solid angle       target_rate, radec, degs (kappa is fixed at 5 by the constructor)
 OPT_VARIANTS = {}
 for _f in ADAPTIVE:
-    OPT_VARIANTS[_f] = {'veitch': ['o:init', 'o:all', 'o:rate'], 'ss': ['o:rate'], 'eig': ['o:rate'],
+    # Sivia-Skilling `o:target`: target_rate alone (the documented default cap of the bounded classes stays in force)
+    OPT_VARIANTS[_f] = {'veitch': ['o:init', 'o:all', 'o:rate'], 'ss': ['o:rate', 'o:target'], 'eig': ['o:rate'],
                         'vmf': ['o:rate'], 'at': ['o:rate:global', 'o:rate:comp']}[ALGO[_f]]
-OPT_VARIANTS['ss_adaptive_normal'] = ['o:rate', 'o:full']
+OPT_VARIANTS['ss_adaptive_normal'] = ['o:rate', 'o:target', 'o:full']
 OPT_VARIANTS['at_adaptive_normal'] = ['o:rate:full', 'o:rate:diag+comp']
 
 # histories made of long runs of rejections (forced), and the needle targets that reject (almost) everything
@@ -94,12 +95,14 @@ def gen_opts(fam, tag, rng, wide_decay=False):
         if tag in ('init', 'all'):
             # initial widths in units of the prior width, different per parameter: between a third and five
             # times the default 0.09 (1 - xi), except one that lies below the decrement of the first
-            # rejection, 0.09 xi (so that the non-negativity guard fires for it alone)
+            # rejection, 0.09 xi (so that the guard `newsigmas <= 0` fires for it alone)
             rel = [round(rng.uniform(0.3, 5.0) * 0.09 * (1 - xi), 5) for _ in range(3)]
             rel[rng.randrange(2)] = round(rng.uniform(0.02, 0.6) * 0.09 * xi, 6)
             o['initial_std_rel'] = rel
     elif algo == 'ss':
         o['target_rate'] = r3(0.12, 0.6)
+        if tag == 'target':
+            return o
         # the cap in units of the widest box (bounded kinds) / the largest initial width (unbounded kinds)
         o['max_std_rel'] = r3(0.4, 2.5)
         o['cov'] = 'full' if tag == 'full' else rng.choice(['diag', 'diag', 'scalar', 'default'])
@@ -139,7 +142,9 @@ class BoxModel:
     """A target with bounded prior support: log-prior 0 inside the box, -inf outside.
 
     target: 'flat' (logl = 0), 'peak' (a needle: Gaussian of width `sharp` x box width
-    about `centre`), 'smooth' (a broad Gaussian; gives fractional acceptance ratios)."""
+    about `centre`), 'smooth' (a broad Gaussian; gives fractional acceptance ratios), 'ridge' (very
+    unequal widths: a needle of width `sharp` x box width in the first parameter, 0.05 x box width
+    in the others -- the covariance a proposal learns from it is extremely ill-conditioned)."""
 
     def __init__(self, names, box, target='flat', centre=None, sharp=1e-4, sphere=False):
         self.names = list(names)
@@ -149,6 +154,8 @@ class BoxModel:
         self.centre = centre or {p: 0.5 * (box[p][0] + box[p][1]) for p in names}
         w = 1.0 if target == 'smooth' else sharp
         self.scale = {p: w * (box[p][1] - box[p][0]) for p in names}
+        if target == 'ridge':
+            self.scale.update({p: 0.05 * (box[p][1] - box[p][0]) for p in self.names[1:]})
 
     def __call__(self, **kw):
         for p in self.names:
@@ -279,7 +286,8 @@ def _construct(case, fam, names, doms, rng):
                 scale0 = float(numpy.max(numpy.diag(full))) ** 0.5
             else:
                 scale0 = 1.0 if cov is None else max(cov) ** 0.5
-            max_cov = ckw['max_cov'] = (float(o['max_std_rel']) * scale0) ** 2
+            if 'max_std_rel' in o:
+                max_cov = ckw['max_cov'] = (float(o['max_std_rel']) * scale0) ** 2
             if k != 1:
                 conf['dur'] = max(2, int(round(float(o.get('dur_rel', 1.0)) * T)))
         elif var == 'full' and n >= 2:
@@ -367,11 +375,11 @@ def build_ex(case):
         off = -math.pi / 2 if conf.get('radec') else 0.0
         boxes = {names[0]: (0.0, TWO_PI * f), names[1]: (off * f, (math.pi + off) * f)}
     mk = case.get('model', 'A')
-    if mk in ('flat', 'peak', 'smooth'):
+    if mk in ('flat', 'peak', 'smooth', 'ridge'):
         centre = None
         if case.get('centre'):
             centre = dict(case['centre'])
-        elif mk == 'peak':
+        elif mk in ('peak', 'ridge'):
             centre = {p: boxes[p][0] + rng.uniform(0.3, 0.7) * (boxes[p][1] - boxes[p][0]) for p in names}
             if kind in ('int', 'intbox'):
                 centre = {p: float(round(v)) for p, v in centre.items()}
@@ -389,7 +397,7 @@ def build_ex(case):
     for i, p in enumerate(names):
         b = boxes[p]
         if where == 'interior':
-            if isinstance(model, BoxModel) and model.target == 'peak':
+            if isinstance(model, BoxModel) and model.target in ('peak', 'ridge'):
                 v = model.centre[p]
             elif kind == 'sphere':
                 v = F.start_value(kind, doms[p], rng, i)
@@ -918,7 +926,7 @@ def opt_coverage(cases):
 
 def _guard_split(res):
     """Number of real Veitch updates after which some widths had moved and others had not (the
-    non-negativity guard decided per parameter)."""
+    guard `newsigmas <= 0` decided per parameter)."""
     if res['kind'] != 'veitch':
         return 0
     cnt, prev = 0, None
@@ -1102,7 +1110,7 @@ def _admissible(prop, kind):
 def usability_run(case):
     """One real run.  Returns dict(findings=[(key, text)], steps, max_draws, ...).  Never waits
     for a stalled jump: the counting generator raises once a jump exceeds the budget."""
-    ch, prop, model, names, boxes = build(case)
+    ch, prop, model, names, boxes, conf = build_ex(case)
     kind = kind_of(prop)
     fam = case['family']
     T = case['T']
@@ -1110,6 +1118,12 @@ def usability_run(case):
     findings = []
     out = {'steps': 0, 'max_draws': 0, 'block_mean_max': 0.0, 'accepted': 0, 'kind': kind}
     widths = True if kind == 'veitch' or (kind == 'ss' and prop.isdiagonal) else None
+    # Sivia-Skilling: no entry of the scale ever exceeds max(initial scale, configured cap) (C14_ss_bounded);
+    # the cap as the case CONFIGURES it (explicit max_cov, or the documented default 1.49 x widest box)
+    ss_bound = None
+    if kind == 'ss' and conf.get('max_cov') is not None:
+        c0 = numpy.array(conf['cov'], dtype=float)
+        ss_bound = max(float(c0.max()), conf['max_cov']) ** (0.5 if conf['diag'] else 1.0) * (1 + 1e-9)
     with CountDraws(prop, STALL_SINGLE) as cnt:
         block = 0
         for it in range(nsteps):
@@ -1135,6 +1149,14 @@ def usability_run(case):
             out['max_draws'] = max(out['max_draws'], d)
             block += d
             out['steps'] += 1
+            if ss_bound is not None:
+                top = float(prop._std.max() if prop.isdiagonal else prop._cov.max())
+                if not top <= ss_bound:
+                    findings.append(('exceeds-cap:' + fam, '%s: largest %s %.6g after step %d, above the initial scale and '
+                                     'the configured cap (max_cov %.6g; %s target, beta %g, target_rate %g)' % (
+                                         fam, 'width' if prop.isdiagonal else 'covariance entry', top, it,
+                                         conf['max_cov'], case['model'], case['beta'], conf['xi'])))
+                    break
             if widths is not None:
                 # the widths after EVERY update (cheap); the full test of all attributes every 100 steps
                 s = numpy.asarray(prop._std, dtype=float)
@@ -1144,8 +1166,9 @@ def usability_run(case):
                                                                            case['model'], T, case['beta'])))
                     break
                 if not (s > 0).all():
-                    # a width of exactly 0 (the guard tests `< 0`): not a positive width; what the next step
-                    # makes of it depends on the class
+                    # a width of exactly 0 (impossible with the guard `newsigmas <= 0`, C14_veitch_pos; before
+                    # repo fix 36b7cfa the guard tested `< 0`): not a positive width; what the next step makes
+                    # of it depends on the class
                     cnt['jump'] = 0
                     try:
                         ch.step()
@@ -1301,8 +1324,26 @@ def gen_usability_cases(seed, tier, full=False):
                                 c['doms'] = {'x%d' % i: [a, round(a + w, 3)] for i, (a, w) in enumerate(zip(los, ws))}
                         c['id'] = 'use-%d' % len(cases)
                         cases.append(c)
-    # target_rate = 1/2 with the default initial widths (C14_veitch_zero_width_witness): the first rejected update
-    # of the window subtracts exactly the initial width.  Prior width 6 (and 2 pi for the angles): the float
+    # very unequal widths of the target (a needle of relative width 1e-8 in one parameter, 0.05 in the others):
+    # the covariance learnt by the full-covariance Andrieu-Thoms proposals and by the eigenvector proposals
+    # becomes singular to any tolerance (condition number > 1e10 after some hundred steps of a long window)
+    for fam, var in (('at_adaptive_normal', 'full'), ('at_adaptive_normal', 'full+comp'),
+                     ('at_adaptive_normal', 'o:rate:full'), ('at_adaptive_normal', 'diag'),
+                     ('adaptive_eigenvector', None)):
+        for beta in (1.0, 0.05):
+            if not thorough and beta != 1.0 and var not in ('full',):
+                continue
+            T = durations[2]
+            c = {'family': fam, 'variant': var, 'n': rng.randint(2, 3), 'T': T, 'start_step': 1, 'k': 1,
+                 'seed': rng.randrange(10 ** 6), 'model': 'ridge', 'sharp': 1e-8, 'beta': beta, 'start': 'interior',
+                 'nsteps': T + 60}
+            if var and var.startswith('o:'):
+                c['opts'] = gen_opts(fam, var[2:], rng)
+            c['id'] = 'use-%d' % len(cases)
+            cases.append(c)
+    # target_rate = 1/2 with the default initial widths (C14_veitch_zero_width_excluded): the first rejected update
+    # of the window subtracts exactly the initial width; the guard `<= 0` has to keep the old width (a
+    # regression is reported as zero-width:<family>).  Prior width 6 (and 2 pi for the angles): the float
     # subtraction is then exact too.  Everything is rejected (a needle of relative width 1e-9).
     for fam in ADAPTIVE:
         if ALGO[fam] != 'veitch':
@@ -1436,9 +1477,23 @@ def direction_run(case):
     n_acc = 0
     xi = conf['xi']
     first = 1 if kind == 'veitch' else 2
+    # a checkpoint is part of a chain's own history: `set_state(state)` of the proposal's own state, once inside
+    # the window and once after it, must leave the proposal distribution and the rest of the run's oracle alone
+    rt_at = set()
+    if case.get('roundtrip'):
+        rt_at = {k * (st0 + max(T // 2, 1)), k * (st0 + T - 1) + 2} if kind != 'ss' else {case['nsteps'] // 2}
+    out['roundtrips'] = 0
     with CountDraws(prop, STALL_SINGLE) as cnt:
         for it in range(case['nsteps']):
             cnt['jump'] = 0
+            if it in rt_at:
+                prop.set_state(prop.state)
+                out['roundtrips'] += 1
+                if scale_bytes(prop, kind) != prev_bytes:
+                    findings.append(('state-roundtrip-changes-scale:' + fam,
+                                     '%s: set_state(state) of its own state before iteration %d changed its '
+                                     'scale attributes' % (fam, it)))
+                    break
             dk = prop.nsteps - prop.start_step + 1
             jumped = bool(prop._call_jump())
             n_iter = prop.nsteps - (prop.start_step - 1) + 1
@@ -1598,6 +1653,8 @@ def gen_direction_cases(seed, tier, full=False):
                     lo, hi = F.FAMILIES[fam][2], F.FAMILIES[fam][3]
                     c = {'family': fam, 'variant': var, 'n': rng.randint(lo, hi), 'T': T, 'start_step': st,
                          'k': k, 'seed': rng.randrange(10 ** 6), 'model': pat, 'beta': 1.0, 'nsteps': nsteps}
+                    if k != 1 or len(cases) % 4 == 0:
+                        c['roundtrip'] = True
                     c['id'] = 'dir-%d' % len(cases)
                     cases.append(c)
     # the optional constructor arguments at non-default values: n >= 2 parameters where the class allows,
@@ -1606,7 +1663,7 @@ def gen_direction_cases(seed, tier, full=False):
         lo, hi = F.FAMILIES[fam][2], F.FAMILIES[fam][3]
         slow = fam.startswith('at_adaptive_b') or fam.startswith('at_adaptive_ang') or fam == 'adaptive_bounded_eigenvector'
         for var in OPT_VARIANTS[fam]:
-            for pat in ['A', 'R', 'AR', 'random'] + REJECT_RUNS[1:]:
+            for pat in ['A', 'R', 'AR', 'ARR', 'random'] + REJECT_RUNS[1:]:
                 combos = ((1, 1), (3, 2)) if not thorough else ((1, 1), (3, 1), (1, 4), (3, 3))
                 if not thorough:
                     # every (variant, history) once; the jump interval / start step alternate
@@ -1620,6 +1677,8 @@ def gen_direction_cases(seed, tier, full=False):
                     c = {'family': fam, 'variant': var, 'opts': gen_opts(fam, var[2:], rng),
                          'n': rng.randint(max(lo, min(2, hi)), hi), 'T': T, 'start_step': st, 'k': k,
                          'seed': rng.randrange(10 ** 6), 'model': pat, 'beta': 1.0, 'nsteps': nsteps}
+                    if k != 1 or len(cases) % 4 == 0:
+                        c['roundtrip'] = True
                     c['id'] = 'dir-%d' % len(cases)
                     cases.append(c)
     # the default-covariance Sivia-Skilling bounded normal on a narrow box
@@ -1666,6 +1725,7 @@ def _direction_collect(seen, outs):
     findings = {}
     cov = {'runs': len(outs), 'steps': 0, 'updates': 0, 'post_window_steps': 0, 'families': {},
            'cut_short': 0, 'own_history_probes': len(seen),
+           'state_round_trips': sum(o.get('roundtrips', 0) for o in outs),
            'optional_arguments': opt_coverage([o['case'] for o in outs]),
            'histories': sorted({o['case']['model'] for o in outs})}
     for o in outs:
